@@ -218,8 +218,12 @@ static void c17_weighted(vr_rng *r)
     }
     /* scale invariance */
     if (vr_nviol == 0 && np >= 4 && cls != G_CONST && mx > mn) {
-        static const double cs[] = { 2.0, 10.0, 1e-3, 0x1p40 };
-        for (int c = 0; c < 4 && vr_nviol == 0; c++) {
+        /* the last three are weight units far from one (durations in picoseconds or in ages of the universe); used with samples of moderate
+         * size only, where no intermediate of a correctly scaled computation leaves the double range */
+        static const double cs[] = { 2.0, 10.0, 1e-3, 0x1p40, 0x1p-900, 0x1p-400, 0x1p+400 };
+        double amax = fabs(mx) > fabs(mn) ? fabs(mx) : fabs(mn);
+        int ncs = (amax <= 1e9 && mx - mn >= 1e-6) ? 7 : 4; if (ncs == 7) VR_CNT("weight_units_far_from_one");
+        for (int c = 0; c < ncs && vr_nviol == 0; c++) {
             struct cmb_wtdsummary *t = cmb_wtdsummary_create();
             for (size_t k = 0; k < n; k++) cmb_wtdsummary_add(t, x[k], w[k] * cs[c]);
             const char *bad = NULL; double a = 0, b = 0;
